@@ -12,6 +12,13 @@
           4 the rendered text does not show the surrounding stretch with the caret under the
             byte at the position                                                (property violated)
           5 rendering the error panicked                                        (property violated)
+   A case with corigin = 4 (PA) is one statement TEXT with what Optimizer.BuildPlan did with it:
+   the composite twin Model/ParseCheck.parse_check (lexer, parser with the real mid-parse tests,
+   checker, call validation, buildFinalPlan's tests) is run on the text and compared -- accepted
+   / rejected, the error position, the stage that rejected (inside Parser.Parse or after it),
+   and for accepted statements the checked trees (field references by name) and every
+   statement / clause position.  A difference is code 1, a rejection position outside the
+   query code 2, one that is no token start code 3, a text outside the model code 99.
    A case with corigin = 3 is an accepted statement: its trees (before and after constant
    folding) and statement positions are checked against the provenance invariant of
    Model/ErrPos.v (every Pos is 0 or a token's Pos, token offsets inside the query); a failure
@@ -19,6 +26,8 @@
    of the implementation). *)
 From Coq Require Import String Ascii ZArith NArith List Bool.
 From KV Require Import Model.Token Model.Ast Model.ErrRender Model.ErrPos Spec.CaretSpec Model.Lexer.
+From KV Require Import Base.Flt Model.StmtParser Model.ParseCheck.
+From KV Require Model.Checker.
 Import ListNotations.
 Local Open Scope string_scope.
 Local Open Scope Z_scope.
@@ -126,8 +135,103 @@ Definition prov_code (c : ncase) : nat :=
      && forallb (fun z => 0 <=? z) (ctoks c)
   then 0 else 1.
 
+(* ---- corigin = 4: query text -> accept / reject through the composite twin ---- *)
+
+Fixpoint pa_expr_eqb (a b : expr) {struct a} : bool :=
+  let list_eqb :=
+    fix go (x y : list expr) : bool :=
+      match x, y with
+      | [], [] => true
+      | a' :: x', b' :: y' => pa_expr_eqb a' b' && go x' y'
+      | _, _ => false
+      end in
+  match a, b with
+  | EBin p o l r, EBin p' o' l' r' => Nat.eqb p p' && op_eqb o o' && pa_expr_eqb l l' && pa_expr_eqb r r'
+  | EField p KeyKW, EField p' KeyKW | EField p ValueKW, EField p' ValueKW => Nat.eqb p p'
+  | EStr p s, EStr p' s' => Nat.eqb p p' && String.eqb s s'
+  | ENot p r, ENot p' r' => Nat.eqb p p' && pa_expr_eqb r r'
+  | ECall p n l, ECall p' n' l' => Nat.eqb p p' && pa_expr_eqb n n' && list_eqb l l'
+  | EName p s, EName p' s' => Nat.eqb p p' && String.eqb s s'
+  | ERef p s _, ERef p' s' _ => Nat.eqb p p' && String.eqb s s'      (* by name *)
+  | ENum p s, ENum p' s' => Nat.eqb p p' && String.eqb s s'
+  | EFloat p s, EFloat p' s' => Nat.eqb p p' && String.eqb s s'
+  | EBool p x, EBool p' x' => Nat.eqb p p' && Bool.eqb x x'
+  | EList p l, EList p' l' => Nat.eqb p p' && list_eqb l l'
+  | EAccess p l f, EAccess p' l' f' => Nat.eqb p p' && pa_expr_eqb l l' && pa_expr_eqb f f'
+  | _, _ => false
+  end.
+
+Fixpoint pa_exprs_eqb (x y : list expr) : bool :=
+  match x, y with
+  | [], [] => true
+  | a :: x', b :: y' => pa_expr_eqb a b && pa_exprs_eqb x' y'
+  | _, _ => false
+  end.
+
+Fixpoint pa_nats_eqb (x y : list nat) : bool :=
+  match x, y with
+  | [], [] => true
+  | a :: x', b :: y' => Nat.eqb a b && pa_nats_eqb x' y'
+  | _, _ => false
+  end.
+
+(* the observation, packed into the fields of a case:
+     cerr   0 BuildPlan returned a plan, 1 SyntaxError, 2 ExecuteError, 3 any other error
+     cpos   the error's Pos
+     cspos  stage :: positions;  stage 0 = Parser.Parse itself returned the error,
+            1 = Parse accepted, the error came later in BuildPlan, 2 = accepted;
+            positions (accepted only; [] = not recorded) = Pos of the statement and its clauses
+     croots (accepted only; [] = not recorded) the trees of Parser.Parse's statement: fields ++
+            [where] / pairs / keys / [where] *)
+Definition pa_stage (c : ncase) : nat := match cspos c with s :: _ => s | [] => 9 end.
+Definition pa_spos (c : ncase) : list nat := match cspos c with _ :: l => l | [] => [] end.
+
+Definition pa_kind_stage (k : pckind) : nat :=
+  match k with
+  | KSyntax | KMidParse | KCheck => 0
+  | KCalls | KPlan => 1
+  end.
+
+Definition pa_accept_code (c : ncase) (s : stmt) (cs : Checker.stmt) : nat :=
+  if match croots c with [] => false | _ => negb (pa_exprs_eqb (cstmt_exprs cs) (croots c)) end then 1
+  else if match pa_spos c with [] => false | l => negb (pa_nats_eqb (stmt_own_positions s) l) end then 1
+  else 0.
+
+Definition pa_spec_code (c : ncase) : nat :=
+  if ((cerr c =? 1) || (cerr c =? 2))%nat then
+    if negb (pos_in_query (cquery c) (cpos c)) then 2
+    else if negb (pos_is_token_start (map (fun t => Z.of_nat (pos t)) (lex (cquery c))) (cpos c)) then 3
+    else 0
+  else 0.
+
+Definition pa_code (c : ncase) : nat :=
+  match parse_check prim_fops (cquery c) with
+  | PCOutOfModel => 99
+  | PCPanic | PCFuel | PCOther => 1
+  | PCErr k z =>
+      match pa_spec_code c with
+      | O => if (cerr c =? 1)%nat && (cpos c =? z) && (pa_stage c =? pa_kind_stage k)%nat then 0 else 1
+      | v => v
+      end
+  | PCOk s cs aggr =>
+      if (cerr c =? 0)%nat then pa_accept_code c s cs
+      else if aggr && (pa_stage c =? 1)%nat then 99      (* AggregatePlan.Init: not modelled *)
+      else match pa_spec_code c with O => 1 | v => v end
+  end.
+
+(* who decided, for the measured distribution: 0 accepted, 1 syntax, 2 mid-parse test, 3 checker,
+   4 call validation, 5 buildFinalPlan, 9 outside the model *)
+Definition pa_class (q : string) : nat :=
+  match parse_check prim_fops q with
+  | PCOk _ _ _ => 0
+  | PCErr KSyntax _ => 1 | PCErr KMidParse _ => 2 | PCErr KCheck _ => 3 | PCErr KCalls _ => 4
+  | PCErr KPlan _ => 5
+  | _ => 9
+  end.
+
 Definition check_ncase (c : ncase) : nat :=
-  if (corigin c =? 3)%nat then prov_code c
+  if (corigin c =? 4)%nat then pa_code c
+  else if (corigin c =? 3)%nat then prov_code c
   else if negb (trim_in_model (cquery c)) then 0
   else match spec_code c with
        | O => corr_code c
